@@ -41,6 +41,11 @@ pub struct Shape {
     ops: usize,
     /// 0 mixed, 1 increments only, 2 register only, 3 mixed through a clone of the thread's Reference
     mix: u8,
+    /// 0: every thread owns a strong clone of the Arc for its whole life and the spawning thread keeps one;
+    /// 1: the spawning thread's Reference is the ONLY strong owner and works alongside the others, which
+    ///    hold `Weak`s and upgrade one for the duration of each operation (so the strong count moves
+    ///    between 1 and N while borrows are outstanding)
+    own: u8,
 }
 
 impl Shape {
@@ -50,10 +55,11 @@ impl Shape {
             threads: 2 + ((id / 2) % 7) as usize,
             ops: 1 + ((id / 14) % 6) as usize,
             mix: ((id / 84) % 4) as u8,
+            own: ((id / 336) % 2) as u8,
         }
     }
     fn id(&self) -> u64 {
-        self.variant as u64 + 2 * (self.threads as u64 - 2) + 14 * (self.ops as u64 - 1) + 84 * self.mix as u64
+        self.variant as u64 + 2 * (self.threads as u64 - 2) + 14 * (self.ops as u64 - 1) + 84 * self.mix as u64 + 336 * self.own as u64
     }
 }
 
@@ -114,19 +120,45 @@ fn scenario(shape: Shape) {
     let entered: std::sync::Arc<StdMutex<Vec<u8>>> = std::sync::Arc::new(StdMutex::new(Vec::new()));
     let incs = std::sync::Arc::new(AtomicU64::new(0));
     let base = make_ref(shape.variant, &am, &ar);
+    let weak = shape.own == 1;
+    let (wm, wr) = (Arc::downgrade(&am), Arc::downgrade(&ar));
+    // in weak mode `base` holds the only strong count of the variant under test
+    let (am, ar) = if weak {
+        drop(am);
+        drop(ar);
+        (None, None)
+    } else {
+        (Some(am), Some(ar))
+    };
     let mut joins = Vec::new();
     for t in 0..shape.threads {
         let (am2, ar2) = (am.clone(), ar.clone());
+        let (wm2, wr2) = (wm.clone(), wr.clone());
         let history = history.clone();
         let entered = entered.clone();
         let incs = incs.clone();
         // (a Reference is not Send: every thread builds its own over the shared Arc;
         //  mix 3 makes the thread work through a clone of its own Reference)
         joins.push(shuttle::thread::spawn(move || {
-            let own = make_ref(shape.variant, &am2, &ar2);
-            let r = if shape.mix == 3 { own.clone() } else { own };
+            let build = || -> Reference<Cell> {
+                let own = match (&am2, &ar2) {
+                    (Some(m), Some(r)) => make_ref(shape.variant, m, r),
+                    _ if shape.variant == 0 => Reference::from_arc_mutex(wm2.upgrade().expect("C17 liveness: the target died while a Reference to it exists")),
+                    _ => Reference::from_arc_rw_lock(wr2.upgrade().expect("C17 liveness: the target died while a Reference to it exists")),
+                };
+                if shape.mix == 3 {
+                    own.clone()
+                } else {
+                    own
+                }
+            };
+            let mut cur: Option<Reference<Cell>> = if weak { None } else { Some(build()) };
             let mut rng = shuttle::rand::thread_rng();
             for k in 0..shape.ops {
+                if weak {
+                    cur = Some(build());
+                }
+                let r = cur.as_ref().unwrap();
                 let choice: u32 = match shape.mix {
                     1 => 0,
                     2 => 1 + rng.gen_range(0..2u32),
@@ -178,8 +210,24 @@ fn scenario(shape: Shape) {
                     let a = c.borrow().counter;
                     let _ = a;
                 }
+                if weak {
+                    cur = None;
+                }
             }
         }));
+    }
+    if weak {
+        // the sole strong owner works too: read-modify-write with a scheduling point inside the borrow
+        for _ in 0..shape.ops {
+            let mut g = base.borrow_mut();
+            entered.lock().unwrap().push(shape.threads as u8);
+            let v = g.counter;
+            shuttle::thread::sleep(std::time::Duration::from_millis(0));
+            g.counter = v + 1;
+            drop(g);
+            incs.fetch_add(1, Ordering::SeqCst);
+            shuttle::thread::sleep(std::time::Duration::from_millis(0));
+        }
     }
     for j in joins {
         j.join().unwrap();
@@ -252,9 +300,12 @@ fn main() {
                 sm = sm.wrapping_mul(6364136223846793005).wrapping_add(1442695040888963407);
                 let shape = if si < 4 {
                     // always include the four corner shapes
-                    Shape { variant: (si % 2) as u8, threads: if si < 2 { 2 } else { 8 }, ops: if si < 2 { 6 } else { 2 }, mix: 0 }
+                    Shape { variant: (si % 2) as u8, threads: if si < 2 { 2 } else { 8 }, ops: if si < 2 { 6 } else { 2 }, mix: 0, own: 0 }
+                } else if si < 6 {
+                    // ... and the sole-strong-owner arrangement for both lock kinds
+                    Shape { variant: (si % 2) as u8, threads: 2, ops: 4, mix: 1, own: 1 }
                 } else {
-                    Shape::from_id((sm >> 20) % 336)
+                    Shape::from_id((sm >> 20) % 672)
                 };
                 for sched in 0..6u32 {
                     // shuttle keeps one persistence directory per process: list it before and after
